@@ -18,6 +18,7 @@ type HeapBase struct {
 	id     int
 	merged []heapParent
 	memo   map[string]*Term
+	wm     *Term // watermark bounding the references held by the symbolic arrays of this base
 }
 
 var heapBaseCounter int
@@ -34,6 +35,7 @@ func (b *HeapBase) lookup(key string, s *Sort) *Term {
 	var t *Term
 	if b.merged == nil {
 		t = Const(fmt.Sprintf("%s@%d", key, b.id), s)
+		regHeapConst(t, key, b.wm)
 	} else {
 		t = b.merged[len(b.merged)-1].h.Get(key, s)
 		for i := len(b.merged) - 2; i >= 0; i-- {
@@ -49,7 +51,11 @@ type Heap struct {
 	base *HeapBase
 }
 
-func newHeap() *Heap { return &Heap{m: map[string]*Term{}, base: newHeapBase()} }
+func newHeap(wm *Term) *Heap {
+	h := &Heap{m: map[string]*Term{}, base: newHeapBase()}
+	h.base.wm = wm
+	return h
+}
 
 func (h *Heap) Get(key string, s *Sort) *Term {
 	if t, ok := h.m[key]; ok {
